@@ -895,6 +895,9 @@ class Variant(VariantBase):
         self.uid = data["uid"]
         self.name = data["name"]
         self.type = data["type"]
+        if isinstance(data["arches"], six.string_types):
+            # set("x86_64") would be a set of characters
+            raise TypeError("Variant %s: arches must be a list: %s" % (self.uid, data["arches"]))
         self.arches = set(data["arches"])
 
         if self.type == "layered-product":
